@@ -26,7 +26,7 @@ def gen_one(rng, seed):
         sp["cmds"] = B.gen_cmds(rng, ["pause", "resume", "save"], shutdown=False)
         # the uptime limit counts system time, which stands still while paused: make sure the run is not left paused,
         # and keep a late shutdown as a safety net (the client stops as soon as launch() has returned)
-        sp["cmds"] += [["sleep", 0.002], ["resume"], ["sleep", 0.5], ["shutdown", "retry"]]
+        sp["cmds"] += [["sleep", 0.002], ["resume", "retry"], ["sleep", 0.5], ["shutdown", "retry"]]
         sp["max_uptime"] = rng.choice([0.002, 0.01, 0.03])
         sp["time_scale"] = rng.choice([1.0, 2.0, 0.5])
     else:
